@@ -275,11 +275,15 @@ Proof.
   assert (N2 : nth_error P (length pre + 2) = Some h).
   { unfold P. rewrite nth_error_app2 by lia.
     replace (length pre + 2 - length pre)%nat with 2%nat by lia. reflexivity. }
-  cbn [agg_scan]. rewrite N0, N1. cbv zeta.
+  assert (LP : (length pre + 3 <= length P)%nat).
+  { unfold P. rewrite app_length. cbn [length]. lia. }
+  assert (G1 : (length P <? length pre + 2)%nat = false) by (apply Nat.ltb_ge; lia).
+  assert (G2 : (length P <=? length pre + 2)%nat = false) by (apply Nat.leb_gt; lia).
+  cbn [agg_scan]. rewrite G1, N0, N1. cbv zeta.
   assert (En : hi * 256 + lo = n) by (unfold hi, lo; pose proof (Z.div_mod n 256); lia).
   rewrite En.
   assert (L1 : (n <? 1) = false) by (apply Z.ltb_ge; unfold n; cbn [length]; lia).
-  rewrite L1, N2.
+  rewrite L1, G2, N2.
   set (pre' := pre ++ hi :: lo :: h :: body).
   assert (Eoff : (length pre + 2 + Z.to_nat n)%nat = length pre').
   { unfold pre', n. rewrite app_length. cbn [length]. lia. }
@@ -429,40 +433,100 @@ Example short_single_refuted :
   nal_ok H264 [103; 66] = true /\ nal_class H264 [103; 66] = 3 /\ classify H264 0 [103; 66] = CK 1.
 Proof. vm_compute. repeat split; reflexivity. Qed.
 
-(* ---------- the scan never runs out of fuel ---------- *)
+(* ---------- the classifier is total: no panic, no fuel exhaustion ---------- *)
 
-Lemma agg_scan_no_fuel : forall ht upd fuel payload off f,
+Lemma nth_error_some : forall (l : list Z) i, (i < length l)%nat -> exists x, nth_error l i = Some x.
+Proof.
+  intros l i H. destruct (nth_error l i) eqn:E; [eauto|]. apply nth_error_None in E. lia.
+Qed.
+
+Lemma agg_scan_total : forall ht upd fuel payload off f,
   (off < length payload)%nat -> (length payload < fuel + off)%nat ->
-  agg_scan ht upd fuel payload off f <> FFuel.
+  exists f', agg_scan ht upd fuel payload off f = FOk f'.
 Proof.
   intros ht upd fuel. induction fuel as [|fuel IH]; intros payload off f H1 H2; [lia|].
   cbn [agg_scan].
-  destruct (nth_error payload off) as [b0|]; [|discriminate].
-  destruct (nth_error payload (S off)) as [b1|]; [|discriminate].
-  cbv zeta. destruct (b0 * 256 + b1 <? 1); [discriminate|].
-  destruct (nth_error payload (off + 2)) as [h|]; [|discriminate].
-  destruct (Nat.leb_spec (length payload) (off + 2 + Z.to_nat (b0 * 256 + b1))); [discriminate|].
+  destruct (Nat.ltb_spec (length payload) (off + 2)); [eauto|].
+  destruct (nth_error_some payload off) as [b0 ->]; [lia|].
+  destruct (nth_error_some payload (S off)) as [b1 ->]; [lia|].
+  cbv zeta. destruct (b0 * 256 + b1 <? 1); [eauto|].
+  destruct (Nat.leb_spec (length payload) (off + 2)); [eauto|].
+  destruct (nth_error_some payload (off + 2)) as [h ->]; [lia|].
+  destruct (Nat.leb_spec (length payload) (off + 2 + Z.to_nat (b0 * 256 + b1))); [eauto|].
   apply IH; lia.
 Qed.
 
-Theorem classify_no_fuel : forall c ch payload, classify c ch payload <> CFuel.
+Lemma codec_flags_total : forall c payload, exists f, codec_flags c payload = FOk f.
 Proof.
-  intros c ch payload. unfold classify. destruct (negb (ch =? 0)); [discriminate|].
-  assert (F : codec_flags c payload <> FFuel); [|destruct (codec_flags c payload); congruence].
+  intros c payload.
   destruct c; cbn [codec_flags]; [unfold h264_flags|unfold hevc_flags];
-    destruct (Nat.ltb_spec (length payload) 3); try discriminate;
-    destruct payload as [|b0 rest]; try discriminate; cbv zeta.
+    destruct (Nat.ltb_spec (length payload) 3); eauto;
+    destruct payload as [|b0 rest]; eauto; cbv zeta.
   - destruct ((24 <=? h264_hdr_type b0) && (h264_hdr_type b0 <=? 27)).
-    + apply agg_scan_no_fuel; lia.
-    + destruct ((h264_hdr_type b0 =? 28) || (h264_hdr_type b0 =? 29)); [|discriminate].
-      destruct (nth_error (b0 :: rest) 1); [|discriminate].
-      destruct (Z.land (Z.shiftr z 7) 1 =? 1); discriminate.
+    + apply agg_scan_total; lia.
+    + destruct ((h264_hdr_type b0 =? 28) || (h264_hdr_type b0 =? 29)); eauto.
+      destruct (nth_error_some (b0 :: rest) 1) as [x ->]; [lia|].
+      destruct (Z.land (Z.shiftr x 7) 1 =? 1); eauto.
   - destruct (hevc_hdr_type b0 =? 48).
-    + apply agg_scan_no_fuel; lia.
-    + destruct (hevc_hdr_type b0 =? 49); [|discriminate].
-      destruct (nth_error (b0 :: rest) 2); [|discriminate].
-      destruct (Z.land (Z.shiftr z 7) 1 =? 1); discriminate.
+    + apply agg_scan_total; lia.
+    + destruct (hevc_hdr_type b0 =? 49); eauto.
+      destruct (nth_error_some (b0 :: rest) 2) as [x ->]; [lia|].
+      destruct (Z.land (Z.shiftr x 7) 1 =? 1); eauto.
 Qed.
+
+(* for EVERY byte string on every channel the caches classify the packet: no index out of range
+   (the repair of D11), and the scan's fuel is never used up *)
+Theorem classify_total : forall c ch payload, exists k, classify c ch payload = CK k.
+Proof.
+  intros c ch payload. unfold classify. destruct (negb (ch =? 0)); [eauto|].
+  destruct (codec_flags_total c payload) as [f ->]. eauto.
+Qed.
+
+Theorem classify_no_fuel : forall c ch payload, classify c ch payload <> CFuel.
+Proof. intros c ch payload. destruct (classify_total c ch payload) as [k ->]. discriminate. Qed.
+
+Theorem classify_no_panic : forall c ch payload, classify c ch payload <> CPanic.
+Proof. intros c ch payload. destruct (classify_total c ch payload) as [k ->]. discriminate. Qed.
+
+(* the kind is always one of 0..5 *)
+Theorem classify_kind_range : forall c ch payload k,
+  classify c ch payload = CK k -> (0 <= k <= 5)%Z.
+Proof.
+  intros c ch payload k. unfold classify. destruct (negb (ch =? 0)).
+  - intros H; injection H as <-. lia.
+  - destruct (codec_flags c payload) as [f| |]; try discriminate. intros H; injection H as <-.
+    destruct c; unfold kind_of_flags;
+      repeat match goal with |- context [if ?b then _ else _] => destruct b end; lia.
+Qed.
+
+(* before the repair the scan read the size field and the unit header unguarded: a STAP-A cut
+   after its header byte plus one size byte indexed past the payload (D11) *)
+Fixpoint agg_scan_unchecked (hdr_type : Z -> Z) (upd : Z -> flags -> flags)
+         (fuel : nat) (payload : list Z) (off : nat) (f : flags) : fres :=
+  match fuel with
+  | O => FFuel
+  | S fuel' =>
+      match nth_error payload off, nth_error payload (S off) with
+      | Some b0, Some b1 =>
+          let size := b0 * 256 + b1 in
+          if size <? 1 then FOk f
+          else match nth_error payload (off + 2) with
+               | Some h =>
+                   let f' := upd (hdr_type h) f in
+                   let off' := (off + 2 + Z.to_nat size)%nat in
+                   if (length payload <=? off')%nat then FOk f'
+                   else agg_scan_unchecked hdr_type upd fuel' payload off' f'
+               | None => FPanic
+               end
+      | _, _ => FPanic
+      end
+  end.
+
+Example agg_scan_unchecked_refuted :
+  let p := [96; 1; 0; 3] in       (* H.265 AP header, then the size field 0x0003 and nothing else *)
+  agg_scan_unchecked hevc_hdr_type hevc_nal_type (length p) p 2 f0 = FPanic /\
+  classify H265 0 p = CK 1.
+Proof. vm_compute. split; reflexivity. Qed.
 
 (* ---------- the FLV cache ---------- *)
 
